@@ -49,6 +49,13 @@ def _sites_of_interest(w, spec):
             label = "call:" + f.attr
             cm = S.module("c_parser").methods("CParser").get(f.attr)
             names = [a.arg for a in cm.args.args[1:]] if cm is not None else None
+        elif isinstance(f, ast.Attribute) and isinstance(f.value, ast.Name) and f.value.id == w.selfname and f.attr.startswith(("_parse_", "_try_parse_")) and (n.args or n.keywords) \
+                and f.attr not in ("_parse_error",):
+            # data handed to another production through its parameters (the callee builds nodes from it)
+            cm = S.module("c_parser").methods("CParser").get(f.attr)
+            if cm is not None and any(not isinstance(a, ast.Constant) for a in list(n.args) + [k.value for k in n.keywords]):
+                label = "call:" + f.attr
+                names = [a.arg for a in cm.args.args[1:]]
         elif isinstance(f, ast.Name) and f.id in BUILDER_FUNCS:
             label = "call:" + f.id
             cf = S.module("ast_transforms").functions.get(f.id)
